@@ -80,7 +80,7 @@ func (f *Formatter) formatFullDocument(frontmatter, body string) (string, error)
 	}
 
 	// Parse HTML
-	doc, err := html.Parse(strings.NewReader(htmlContent))
+	doc, err := html.ParseWithOptions(strings.NewReader(htmlContent), html.ParseOptionEnableScripting(false))
 	if err != nil {
 		return "", fmt.Errorf("parsing HTML: %w", err)
 	}
@@ -160,7 +160,7 @@ func fragmentContext(body string) *html.Node {
 // to avoid injecting html/head/body wrappers.
 func (f *Formatter) formatFragment(frontmatter, body string) (string, error) {
 	ctx := fragmentContext(body)
-	nodes, err := html.ParseFragment(strings.NewReader(body), ctx)
+	nodes, err := html.ParseFragmentWithOptions(strings.NewReader(body), ctx, html.ParseOptionEnableScripting(false))
 	if err != nil {
 		return "", fmt.Errorf("parsing HTML fragment: %w", err)
 	}
@@ -237,8 +237,10 @@ func (f *Formatter) formatNode(n *html.Node, buf *strings.Builder, depth int) {
 		}
 
 	case html.ElementNode:
-		// Style/script blocks - preserve content as-is
-		if n.Data == "style" || n.Data == "script" {
+		// Style/script blocks and the other elements whose content the parser reads as
+		// raw text - preserve content as-is: escaping it would change it with every pass.
+		// (<noscript> is parsed as markup: the source is formatted, not run.)
+		if isRawTextElement(n.Data) {
 			f.formatRawTextElement(n, buf, indent)
 			return
 		}
@@ -309,6 +311,16 @@ func (f *Formatter) formatNode(n *html.Node, buf *strings.Builder, depth int) {
 		buf.WriteString(n.Data)
 		buf.WriteString("-->\n")
 	}
+}
+
+// isRawTextElement reports whether the parser hands the content of the element over as
+// one piece of text, whatever markup it looks like.
+func isRawTextElement(tag string) bool {
+	switch tag {
+	case "style", "script", "xmp", "iframe", "noembed", "noframes":
+		return true
+	}
+	return false
 }
 
 // formatRawTextElement formats script/style elements preserving their content.
